@@ -164,6 +164,16 @@ def fixed_programs():
                                                              [["Q", "prov", PROVU, "activity"], ["str", "ex:a"]], [["S", "ex:k"], ["int", "2"]]]],
               ["NewRecord", c, "Usage", "none", [[["Q", "prov", PROVU, "activity"], ["str", "ex:a"]], [["Q", "prov", PROVU, "entity"], ["str", "ex:undeclared"]]]]]
         out.append(p)
+    # unified() raises on this one (two activities ex:a with different start times): exporters that fall back to the
+    # original document must still leave it alone
+    out.append([["NewDoc"], ["AddNs", ["d", "0"], "ex", EXU],
+                ["NewRecord", ["d", "0"], "Activity", ["S", "ex:a"], [[["Q", "prov", PROVU, "startTime"], ["time", "2012", "3", "31", "9", "21", "0", "0", "none"]],
+                                                                    [["S", "prov:label"], ["str", "first"]]]],
+                ["NewRecord", ["d", "0"], "Activity", ["S", "ex:a"], [[["Q", "prov", PROVU, "startTime"], ["time", "2012", "3", "31", "10", "21", "0", "0", "none"]],
+                                                                    [["S", "prov:label"], ["lit", "second", "none", ["some", "en"]]]]],
+                ["NewRecord", ["d", "0"], "Entity", ["S", "ex:e"], [[["S", "prov:label"], ["str", "labelled"]], [["S", "ex:k"], ["int", "1"]]]],
+                ["NewRecord", ["d", "0"], "Usage", ["S", "ex:u"], [[["Q", "prov", PROVU, "activity"], ["str", "ex:a"]], [["Q", "prov", PROVU, "entity"], ["str", "ex:e"]],
+                                                                 [["S", "prov:label"], ["str", "used"]]]]])
     return out
 
 
